@@ -24,6 +24,8 @@ type c04Case struct {
 	Cert       string `json:"cert"`        // valid wronghost untrusted expired altname both
 	Prior      bool   `json:"prior"`       // a first, good TLS connection was made and lost before
 	Transport  string `json:"transport"`   // tcp ws
+	// Sibling: "insecure" / "strict" = another Client was built before on the same *tls.Config with Insecure on / off
+	Sibling string `json:"sibling,omitempty"`
 }
 
 var (
@@ -48,6 +50,9 @@ func genC04(t *rapid.T) c04Case {
 	if rapid.IntRange(0, 9).Draw(t, "ws") == 0 {
 		c.Transport = "ws"
 		c.Prior = false
+	}
+	if c.TLSConf != "nil" && rapid.IntRange(0, 3).Draw(t, "sibling") == 0 {
+		c.Sibling = rapid.SampledFrom([]string{"insecure", "strict"}).Draw(t, "siblingKind")
 	}
 	return c
 }
@@ -100,7 +105,10 @@ func runC04(c c04Case) vh.Result {
 	}
 	prior := &peer.Script{Mechs: []string{"PLAIN"}, OfferTLS: true, Cert: "both"}
 	var addr string
-	opt := clientOpt{Insecure: c.Insecure, ServerName: c.ServerName}
+	opt := clientOpt{Insecure: c.Insecure, ServerName: c.ServerName, Sibling: c.Sibling}
+	if c.Sibling != "" {
+		res.Label("tls-config-shared-with-another-client")
+	}
 	switch c.TLSConf {
 	case "nil":
 		opt.NoTLSConfig = true
@@ -245,7 +253,7 @@ func runC04(c c04Case) vh.Result {
 
 var c04 = vh.Define(&vh.Def[c04Case]{
 	Property: "C04", Name: "tls",
-	Rule: "client settings {Insecure on/off} x {TLSConfig nil, RootCAs = test CA, InsecureSkipVerify} x {ServerName unset, = domain, = another name} x server STARTTLS {not offered, offered, required} x reply {proceed, failure, unexpected element, malformed, close} x certificate {valid for the domain, wrong host, untrusted issuer, expired, valid only for the other name, valid for both} x {first connection, reconnection after a good TLS connection was lost} over TCP, plus ws:// addresses; real TLS handshakes; oracle on the peer transcript, which tags every received element clear-text / inside-TLS: with Insecure off no <auth/> or stanza in clear text; with verification enabled and a certificate that does not validate for the domain no <auth/> or stanza inside TLS and Connect fails; the legitimate combinations must succeed with <auth/> inside TLS after a fresh stream header (guards against a vacuous fail-closed pass); non-trivial = TLS was attempted or Insecure is off",
+	Rule: "client settings {Insecure on/off} x {TLSConfig nil, RootCAs = test CA, InsecureSkipVerify} x {ServerName unset, = domain, = another name} x {alone, or after another Client was built on the same *tls.Config with Insecure on / off (a quarter of the cases with a TLSConfig)} x server STARTTLS {not offered, offered, required} x reply {proceed, failure, unexpected element, malformed, close} x certificate {valid for the domain, wrong host, untrusted issuer, expired, valid only for the other name, valid for both} x {first connection, reconnection after a good TLS connection was lost} over TCP, plus ws:// addresses; real TLS handshakes; oracle on the peer transcript, which tags every received element clear-text / inside-TLS: with Insecure off no <auth/> or stanza in clear text; with verification enabled and a certificate that does not validate for the domain no <auth/> or stanza inside TLS and Connect fails; the legitimate combinations must succeed with <auth/> inside TLS after a fresh stream header (guards against a vacuous fail-closed pass); non-trivial = TLS was attempted or Insecure is off",
 	Quick: 400, Thorough: 3000, Journal: true,
 	Gen: genC04, Run: runC04,
 })
